@@ -19,6 +19,8 @@ from inferno.neural import (LIF, ALIF, DeltaCurrent, DeltaPlusCurrent, SingleExp
                             DoubleExponentialCurrent, LinearDense, LinearDirect, Serial)
 from inferno.observe import (PassthroughReducer, NearestTraceReducer, CumulativeTraceReducer, EMAReducer,  # noqa: E402
                              EventReducer, CAReducer)
+from inferno.observe.reducers.trace import (ScaledNearestTraceReducer, ScaledCumulativeTraceReducer,  # noqa: E402
+                                            ConditionalNearestTraceReducer, ConditionalCumulativeTraceReducer)
 
 torch.set_num_threads(1)
 BAD = -777
@@ -78,6 +80,14 @@ def make_reducer(cls, dt, dur, incl, inplace):
         return CAReducer(dt, **kw)
     if cls == "EventReducer":
         return EventReducer(dt, lambda x: x > 0.5, **kw)
+    if cls == "ScaledNearestTraceReducer":
+        return ScaledNearestTraceReducer(dt, 4.0, 1.0, 0.5, lambda x: x > 0.5, **kw)
+    if cls == "ScaledCumulativeTraceReducer":
+        return ScaledCumulativeTraceReducer(dt, 4.0, 1.0, 0.5, lambda x: x > 0.5, **kw)
+    if cls == "ConditionalNearestTraceReducer":
+        return ConditionalNearestTraceReducer(dt, 4.0, 1.0, 0.5, **kw)
+    if cls == "ConditionalCumulativeTraceReducer":
+        return ConditionalCumulativeTraceReducer(dt, 4.0, 1.0, 0.5, **kw)
     raise KeyError(cls)
 
 
@@ -109,7 +119,10 @@ class ConfigImpl:
             # temporal setters of RecordTensor refuse uninitialised storage when the size changes
             # (C13 finding D5) reducers can only be re-configured after observing once; where that
             # is repaired both the observed and the never-observed reducer are exercised
-            self.obj(torch.zeros(2, 3))
+            if self.cls.startswith("Conditional"):
+                self.obj(torch.zeros(2, 3), torch.zeros(2, 3, dtype=torch.bool))
+            else:
+                self.obj(torch.zeros(2, 3))
             if hdr.get("warm") == "ks":
                 # a third calling history: observed once, then cleared KEEPING the shape of its storage; every further
                 # re-configuration is preceded by clear(keepshape=True) too and so is the probe (clearing is not a
@@ -341,7 +354,10 @@ class ConfigImpl:
             see("voltage", lambda: o.neuron.voltage)
             see("syncurrent", lambda: o.connection.syncurrent)
         else:
-            see("forward", lambda: o(x))
+            if type(o).__name__.startswith("Conditional"):
+                see("forward", lambda: o(x, x > 0.5))          # (observation, condition)
+            else:
+                see("forward", lambda: o(x))
             see("peek", lambda: o.peek())
             see("dump", lambda: o.dump())
             for j, t in enumerate(sel):
